@@ -73,6 +73,21 @@ def run(prog: Program, rep: Report, tier: str):
     rule_closure(prog, rep)
     rule_effect(prog, rep, fns)
     rule_unwrap_keeps_static(prog, rep)
+    # every constructor argument becomes a leaf through arraylike_to_array: a plain jnp.asarray gives committed (strongly
+    # typed) arrays, which is what tree_serialise_leaves / tree_deserialise_leaves restore; a weakly typed leaf (a Python
+    # float passed through) promotes differently after the round trip
+    from .conform import conform_function
+    rep.rule("C14.cast", "utils.arraylike_to_array returns jnp.asarray(arr, **kwargs) of an ArrayLike (TypeError otherwise): "
+                         "leaves are strongly typed arrays whatever Python numbers the constructors were given", minimum=1)
+    conform_function(prog, rep, "C14.cast", "flowjax.utils.arraylike_to_array", ["arr", "err_name"],
+                     "def arraylike_to_array(arr, err_name='input', **kwargs):\n"
+                     "    if not isinstance(arr, ArrayLike):\n        raise TypeError('not arraylike')\n"
+                     "    return jnp.asarray(arr, **kwargs)\n", "array conversion", guards=False)
+    # a field annotated as Python ints / tuples is used as such (shapes, split points, axes): stored as a jax array it
+    # is a traced leaf under jit and the Python-level use fails, while the eager call works
+    from .leaves import rule_static_fields
+    from .bij import bijection_classes as _bcs
+    rule_static_fields(prog, rep, "C14.static-fields", _bcs(prog), minimum=8)
     from .lints import rule_error_if_consumed
     rule_error_if_consumed(prog, rep, "C14.error-if", minimum=4)
     from .lints import rule_jit_captures
